@@ -491,6 +491,23 @@ func runCheck(env *run.Env, c *check) int {
 		progs = append(progs, sp...)
 		logf("(G) %d behaviours of %s simulated by TLC become programs", nsim, c.sim.mod)
 	}
+	// regression programs of recorded findings that the generators cannot afford to draw at random
+	// (findings/*.json, thorough tier only: e.g. a conversion at precision MaxPrec needs 8 GB)
+	if thor {
+		files, _ := filepath.Glob(filepath.Join(env.Home, "findings", "*.json"))
+		sort.Strings(files)
+		for _, f := range files {
+			var rf replayFile
+			buf, err := os.ReadFile(f)
+			if err != nil || json.Unmarshal(buf, &rf) != nil {
+				die("findings file %s unreadable", f)
+			}
+			if rf.Property == c.id {
+				progs = append(progs, rf.Program)
+				logf("regression program %s added", filepath.Base(f))
+			}
+		}
+	}
 	per := c.batch
 	if per == 0 {
 		per = 25
